@@ -223,7 +223,7 @@ def main():
                 pass   # solver flake: keep the proved record
             else:
                 entries[r['name']] = dict(verdict='open', hash=r['hash'], answer=r['verdict'], props=props)
-        if not a.unit and not a.no_vc:
+        if not a.no_vc:
             unit_names = {u.name for u in my_units}
             for name in [n_ for n_ in ledger.d if n_.split(':', 1)[0] in unit_names and n_ not in by_name]: del ledger.d[name]     # obligations that no longer exist
         ledger.save(entries)
